@@ -156,6 +156,12 @@ func vSweepRace(t *testing.T, rounds int) int {
 			round.Store(stop)
 			return -1
 		}
+		// both have returned: the map and the accounting hold the key together or not at all (C13)
+		if _, inStore := sm.Get(uint64(k), 7); inStore != pol.Has(uint64(k)) {
+			fmt.Printf("stress sweeprace: round %d: after an overwrite raced the sweep, key %d is in the map: %v, accounted by the policy: %v (overwrite found the entry: %v, sweep evicted value %d)\n", k, k, inStore, pol.Has(uint64(k)), hit, evicted.Load())
+			round.Store(stop)
+			return -1
+		}
 		sm.Del(uint64(k), 7)
 		pol.Del(uint64(k))
 	}
